@@ -20,6 +20,52 @@ CHECKS = {
                   "from the real VM through the cfg-guarded observer hook"),
 }
 
+TRACEVM = ("TLC trace validation (spec/trace/TraceVm.tla reusing VmOps/VmExec actions) of per-op events recorded from the "
+           "real VM, children of Compute included, through the cfg-guarded observer hook")
+CHECKS.update({
+    "C05": dict(
+        level="model_checking", design="6/C05",
+        text="Bounds (stack<=4096, memory<=10240, repeat<=4096, depth<=1, words in range) is a TLC invariant of the "
+             "small-step exec model (all interleavings of compute children) and of every state of every validated trace; "
+             "drivers: every 2-op program over all ops x 10 boundary immediates from 4-5 machine shapes (incl. stack 4095, "
+             "memory 10239, inside a child), a slice (thorough: all) of 3-op programs, long random programs with loops, "
+             "jumps, compute and state reads, in overflow-checked (dev) and release builds; a panic is an event no "
+             "specification action accepts.",
+        note="absence of panics is established for the explored programs, not proved; allocation aborts would kill the "
+             "driver process (reported as a tool error with the case label).",
+        technique="TLA+ VmExec/VmOps model-checked with TLC + " + TRACEVM),
+    "C07": dict(
+        level="model_checking", design="6/C07",
+        text="TLC checks GasExact, GasWithinLimit, OutOfGasBeforeEffect (action property) and Terminates (liveness under "
+             "weak fairness) on the small-step exec model for a program library x cost functions x every limit 0..14|24; "
+             "the gas driver runs each program of the library on the real VM once per limit 0..total+1 (cut-point "
+             "enumeration) with uniform and per-op costs incl. 0 and values next to u64::MAX, plus random programs under "
+             "random small limits; TraceVm checks per op that the charge is exact, within the limit, and that a refused op "
+             "left the machine untouched.",
+        note="gas values are compressed like words (small / next to u64::MAX); finding F9 (children metered separately) "
+             "is open and reported as KNOWN-FINDING.",
+        technique="TLA+ VmExec model-checked with TLC (safety + liveness) + " + TRACEVM),
+    "C09": dict(
+        level="model_checking", design="6/C09",
+        text="MC_Ctl.tla states the documented outcomes in closed form (trip count max(n,1), counter sequences up/down, "
+             "nested resume, JumpIf target/conditions, Halt/HaltIf/end of program, evaluation) and TLC checks the "
+             "operational exec loop against them for all counts {MIN,-1,0,1,2,3} x directions x nestings x distances x "
+             "positions; the ctl driver runs the same families (plus repeat nesting to the real 4096 limit, jumps "
+             "into/out of loops, eval_ops) on the real VM and TraceVm validates pc, repeat stack and counters after every op.",
+        note="the counter value seen when n<=0 is what the code shows (0 resp. n); the property only fixes the trip count.",
+        technique="TLA+ closed-form control-flow properties model-checked with TLC + " + TRACEVM),
+    "C10": dict(
+        level="model_checking", design="6/C10",
+        text="MC_VmExec.tla lets the children of a Compute interleave freely and TLC checks Confluent (every interleaving "
+             "ends in the outcome of the sequential big-step reference) for children that take index-dependent paths, "
+             "halt, fail, read parent memory, overflow the joined memory, nest; the compute driver runs those families "
+             "(breadths MIN..7, 1000, 4096, memory exactly at / one above the limit, index push overflow, inside parent "
+             "loops) on the real VM: every child's initial state, every child step and the join are validated by TraceVm.",
+        note="real rayon schedules are whatever the pool produced in the run; the order-independence argument is the "
+             "model-checked Confluent property plus per-child validation in index order.",
+        technique="TLA+ fork/join interleaving model checked with TLC against a sequential reference + " + TRACEVM),
+})
+
 NOT_YET = {
 }
 
